@@ -209,6 +209,23 @@ def directionOk (evs : List Ev) : List ObsItem → Bool
        | .onHup => e.op.onHup
        | .other _ => false) && directionOk evs rest
 
+/-- (i) a reported hang-up is acted on: an event that carries the hang-up condition (HUP or RDHUP) for an ordinary operator whose
+token was free, reached before `handler` returned, ends with the descriptor deregistered and the hang-up callback run – unless an
+`InputAck` of THIS descriptor in THIS dispatch carried a non-zero count (bytes were delivered: the hang-up is left to the next
+wake-up, which a level-triggered registration gets).  What the other descriptors of the batch delivered is irrelevant: an
+edge-triggered registration is told about the hang-up once, so a report that is swallowed is "reported zero times". -/
+def hupActedOn (buf0 : Nat) (init : Nat → OpSt) (evs : List Ev) (tr : List ObsItem) : Bool :=
+  let upto := match exitIndex buf0 init evs 0 with
+    | some i => i
+    | none => evs.length
+  (evs.take upto).all fun e =>
+    !(e.trig.hup && !e.op.wake && (init e.id).state == 1) ||
+    (tr.any fun j => j.id == e.id && (match j.ob with
+      | .inputAck n => n != 0
+      | _ => false)) ||
+    (((tr.any fun j => j.id == e.id && j.ob == .detach) || (init e.id).detached > 0) &&
+     (!e.op.onHup || tr.any fun j => j.id == e.id && j.ob == .onHup))
+
 def nodupIds : List Ev → Bool
   | [] => true
   | e :: es => !(es.any (·.id == e.id)) && nodupIds es
@@ -223,6 +240,7 @@ def specCheck (buf0 : Nat) (init : Nat → OpSt) (evs : List Ev) (o : ObsOut) : 
   (if acksOk evs o then [] else ["ack-counts"]) ++
   (if drainedBeforeHup evs o.tr then [] else ["hup-before-data"]) ++
   (if exitOk buf0 init evs o then [] else ["exit"]) ++
-  (if directionOk evs o.tr then [] else ["direction"])
+  (if directionOk evs o.tr then [] else ["direction"]) ++
+  (if hupActedOn buf0 init evs o.tr then [] else ["hup-not-acted-on"])
 
 end Netpoll.Poll
